@@ -55,8 +55,8 @@ theorem keeps_unsupported {α} (w : String) : KeepsToken (xUnsupported w : XM α
 theorem keeps_evalT (cfg : ECfg) (al : List (Str × Val)) (env : Env) : ∀ (f : Nat),
     (∀ e esc d, KeepsToken (evalT cfg al env f e esc d)) ∧
     (∀ alts esc d, KeepsToken (evalAlts cfg al env f alts esc d)) ∧
-    (∀ ps esc d, KeepsToken (evalParts cfg al env f ps esc d)) ∧
-    (∀ ps esc d, KeepsToken (partsText cfg al env f ps esc d)) := by
+    (∀ ps esc d lf, KeepsToken (evalParts cfg al env f ps esc d lf)) ∧
+    (∀ ps esc d lf, KeepsToken (partsText cfg al env f ps esc d lf)) := by
   intro f
   induction f with
   | zero =>
@@ -103,7 +103,7 @@ theorem keeps_evalT (cfg : ECfg) (al : List (Str × Val)) (env : Env) : ∀ (f :
           | exact keeps_bind _ _ (keeps_xLiftR _) (fun s => keeps_pure _)
       | str parts =>
         simp only [evalT]
-        refine keeps_bind _ _ (ihP parts esc d) (fun r => ?_)
+        refine keeps_bind _ _ (ihP parts esc d true) (fun r => ?_)
         cases r <;> exact keeps_pure _
     · intro alts esc d
       cases alts with
@@ -139,25 +139,25 @@ theorem keeps_evalT (cfg : ECfg) (al : List (Str × Val)) (env : Env) : ∀ (f :
             · split at h
               · exact ((ihA rest esc d) x1 (h2 _ _ hr)).2 _ _ h
               · cases h; exact h2 _ _ hr
-    · intro ps esc d
+    · intro ps esc d lf
       simp only [evalParts]
       split
       · exact keeps_pure _
       · rename_i e tok t
         exact keeps_bind _ _ (keeps_xSetToken tok) (fun _ => keeps_bind _ _ (ihT e esc d) (fun v => keeps_xLiftR _))
-      · exact keeps_bind _ _ (ihX ps esc d) (fun rs => keeps_pure _)
-    · intro ps esc d
+      · exact keeps_bind _ _ (ihX ps esc d lf) (fun rs => keeps_pure _)
+    · intro ps esc d lf
       cases ps with
       | nil => simp only [partsText]; exact keeps_pure _
       | cons p rest =>
         simp only [partsText]
         cases p with
         | lit s =>
-          exact keeps_bind _ _ (keeps_pure _) (fun a => keeps_bind _ _ (ihX rest esc d) (fun b => keeps_pure _))
+          exact keeps_bind _ _ (keeps_pure _) (fun a => keeps_bind _ _ (ihX rest esc d lf) (fun b => keeps_pure _))
         | expr e tok t =>
           exact keeps_bind _ _ (keeps_xSetToken tok) (fun _ => keeps_bind _ _ (ihT e esc d)
             (fun v => keeps_bind _ _ (keeps_xLiftR _) (fun t => keeps_bind _ _ (keeps_pure _)
-              (fun a => keeps_bind _ _ (ihX rest esc d) (fun b => keeps_pure _)))))
+              (fun a => keeps_bind _ _ (ihX rest esc d lf) (fun b => keeps_pure _)))))
 
 /-- **C12 (token bookkeeping)**: evaluating a `Value` sets `__token` to the expression's position
 before any Python code runs: if it raises, the token is set (so the render function's handler can
